@@ -118,6 +118,9 @@ func (n *VNet) Addr(i int) net.Addr     { return n.eps[i].addr }
 func (n *VNet) SetAddr(i int, a string) { n.eps[i].addr = vAddr(a) }
 func (n *VNet) Now() time.Duration      { n.mu.Lock(); defer n.mu.Unlock(); return n.now }
 
+// IsStuck: the controller gave up (nothing could happen before MaxVirtual) and closed the endpoints.
+func (n *VNet) IsStuck() bool { n.mu.Lock(); defer n.mu.Unlock(); return n.Stuck }
+
 type timeoutErr struct{}
 
 func (timeoutErr) Error() string   { return "vnet: i/o timeout" }
